@@ -24,8 +24,8 @@ RULE = (
 )
 BOUNDS = "respondents 0..24, valid categories 1..4, items 1..3, insertions 0..2"
 ASSUMPTIONS = [
-    "null selected/other counts inside a present complete-case block are outside the "
-    "documented input domain and are not generated (null containers and null weighted_n are)",
+    "nulls are generated at every level of the filter statistics (containers, weighted_n, "
+    "selected / other)",
     "both dimensions categorical-date: only the fraction and linearity are asserted",
     "proportions and std-errs of the same run are used as the population proportion / error "
     "(they are tied to respondents by C03 / C11)",
@@ -59,6 +59,10 @@ def filter_block_st(draw):
             "weighted": {"selected": draw(NUM), "other": draw(NUM), "missing": draw(NUM)}}}
         if draw(st.integers(0, 3)) == 0:
             fs["is_cat_date"] = draw(st.booleans())
+        if draw(st.integers(0, 5)) == 0:
+            # null counts inside a present block: unspecified, like a null weighted_n
+            for key in draw(st.sampled_from([["selected"], ["other"], ["selected", "other"]])):
+                fs["filtered_complete"]["weighted"][key] = None
         extras["filter_stats"] = fs
     elif kind == "new-null":
         extras["filter_stats"] = {"filtered_complete": {"weighted": None}}
@@ -82,8 +86,8 @@ def expected_fraction(extras):
     if wfc:
         if fs.get("is_cat_date"):
             return 1.0
-        num = wfc["selected"]
-        den = num + wfc["other"]
+        num = wfc.get("selected")
+        den = None if num is None or wfc.get("other") is None else num + wfc["other"]
     else:
         num = (extras.get("filtered") or {}).get("weighted_n")
         den = (extras.get("unfiltered") or {}).get("weighted_n")
